@@ -19,8 +19,9 @@ PROPS = {
                  "(holder_identity, holder_distinct), and the concrete store sends exactly the frames of the reference-table system "
                  "(system_refines_table) — Lean theorems by invariant over all event lists; tied to the code by byte- and clock-exact correspondence of "
                  "the real server.New + Run on the virtual segment (sequential scripts under a virtual clock) and by real-time bursts of overlapping "
-                 "packets, with an independent grant-overlap monitor on the tapped frames.",
-        "props": ["C01", "C02Code"],
+                 "packets, with an independent grant-overlap monitor on the tapped frames."
+                 " The lease database below the handlers is on the regenerated code too: every method of *IPDB (UpdateClient, FindIP, LookupClientByDuid, AddPermanentClient, ...) and every method of the clients table (Lookup, Inject, SetLease, ... with its Go map and record pointers), as translated from the source on every run, equal the model operations the invariants are proved over (C11Code, C11CodeClients).",
+        "props": ["C01", "C02Code", "C11Code", "C11CodeClients"],
         "streams": [{"test": "TestSrvSeq", "names": ["srvseq"], "timeout": 300}, {"test": "TestSrvConc", "names": ["srvconc"], "timeout": 300},
                     {"test": "TestDbConc", "names": ["dbconc"], "timeout": 300}],
         "rule": "corpus (D1-D3 histories) first; random configurations (prefix /24../30, pools of 1-8 addresses at start/middle/end, 0-2 static entries, "
@@ -84,8 +85,9 @@ PROPS = {
                  "overlapping grants to one holder carry the same address (same_address, discover_while_bound), a specific free pool address is "
                  "honoured (suggestion_honoured) and silence on a DISCOVER means every pool address was examined and found bound, .0/.255 or in "
                  "conflict (silent_only_if_exhausted) — Lean theorems over all event lists; correspondence as C01 with gaps around hold and lease "
-                 "times and a monitor that tracks every client's running grants from the tapped frames.",
-        "props": ["C05", "C11Code"],
+                 "times and a monitor that tracks every client's running grants from the tapped frames."
+                 " UpdateClient (never-shorten rule included) and FindIP (suggestion only inside the range, permutation, per-candidate probe) as translated from the source on every run equal the model's updateClient/findIP, and the clients table below them equals Model/Clients (C11Code, C11CodeClients).",
+        "props": ["C05", "C11Code", "C11CodeClients"],
         "streams": [{"test": "TestSrvSeq", "names": ["srvseq"], "timeout": 300}, {"test": "TestIpdb", "names": ["ipdb"], "timeout": 300}],
         "rule": "as C01 (gaps hold-2 s, hold+2 s, lease/2, lease-3 s, lease+3 s, 3*lease; re-DISCOVERs by bound clients; retransmitted REQUESTs; other "
                 "hosts in between; pools down to one address) plus the IPDB stream at database level; non-trivial = the server answered",
@@ -111,8 +113,9 @@ PROPS = {
         "level": "dhcpOptions is exactly lease, netmask, then router/DNS/NTP/domain/hostname with per-client replacement of exactly the settings an entry "
                  "specifies (options_spec), decoding to the configured values (options_decoded), identical in OFFER and ACK (offer_ack_agree), and "
                  "the advertised whole seconds are within one second of what the ACK's update reserves (advertised_is_reserved) — Lean theorems; "
-                 "correspondence over every subset of global x per-client settings x list lengths, checked by the monitor's own reading of the config.",
-        "props": ["C07", "C12Code"],
+                 "correspondence over every subset of global x per-client settings x list lengths, checked by the monitor's own reading of the config."
+                 " server.dhcpOptions and OptionIPAddressLeaseDuration as translated from the source on every run equal SrvCfg.dhcpOptions / optLease, and the override table's keys (Duid.String) are injective (C07Code).",
+        "props": ["C07", "C12Code", "C07Code"],
         "streams": [{"test": "TestCfgOptions", "names": ["cfgopts"], "timeout": 300}, {"test": "TestCfgNew", "names": ["cfgnew"], "timeout": 300},
                     {"test": "TestSrvSeq", "names": ["srvseq"], "timeout": 300}, {"test": "TestSrvConc", "names": ["srvconc"], "timeout": 300}],
         "rule": "the server scripts of C01 (advertised lease time = time the address stays reserved: nobody else is given the address, and the holder is not refused, "
@@ -127,8 +130,9 @@ PROPS = {
                  "address of the first 28-byte-truncated frame whose SENDER address is the probed one (only_sender_ip_counts, probe_times_out); a "
                  "REQUEST whose probe met a foreign answer is never acknowledged and is NAKed (conflict_never_acked, conflict_naked); an offered "
                  "address was probed free in the very search (offered_was_probed_free) — Lean theorems; the real arpping.Ping against injected frame "
-                 "lists, responders on the pools of the server scripts, and restarts with leaseholders still answering.",
-        "props": ["C08", "C13Code"],
+                 "lists, responders on the pools of the server scripts, and restarts with leaseholders still answering."
+                 " FindIP as translated from the source on every run (each candidate: context check, clock, Lookup, Valid, probe callback) equals the model's findIP/findLoop (C11Code).",
+        "props": ["C08", "C13Code", "C11Code"],
         "streams": [{"test": "TestArp", "names": ["arp"], "timeout": 300}, {"test": "TestSrvSeq", "names": ["srvseq"], "timeout": 300}],
         "rule": "Ping against 0-4 injected frames (valid answers, wrong sender address, requests, short, padded to 46 bytes, random); restart scripts: 1-4 "
                 "hosts lease, the server is rebuilt empty, the holders answer ARP, 1-3 newcomers DISCOVER (half of them asking for an address in use); "
@@ -183,8 +187,9 @@ PROPS = {
                  "binding per address and per client (clients_refine, ipdb_refine, table_exclusive), plus the iff-characterisations of update and "
                  "the FindIP postconditions — Lean theorems for all histories; tied to the code by exhaustive small-scope and random differential "
                  "runs of the real clients/ipdb packages under a virtual clock."
-                 " Uip.Valid/ToV4 as translated from the source equal the model's (C11Code).",
-        "props": ["C11", "C11Code"],
+                 " Uip.Valid/ToV4 as translated from the source equal the model's (C11Code)."
+                 " The whole lease database is on the regenerated code: the *IPDB methods of ipdb.go over an abstract clients store (C11Code), the clients table of clients.go with its Go map keyed by Uip.String()/Duid.String() and its heap of records (C11CodeClients), and the injectivity/disjointness of those key strings (C07Code) — each translated function proved equal to the model operation that clients_refine/ipdb_refine relate to the reference table.",
+        "props": ["C11", "C11Code", "C11CodeClients", "C07Code"],
         "streams": [{"test": "TestClients", "names": ["clients"], "timeout": 600}, {"test": "TestIpdb", "names": ["ipdb"], "timeout": 600}],
         "rule": "Clients API: ALL operation sequences up to length 3 (quick; 4 thorough, depth 4 over a reduced alphabet) over 2 addresses x 2 clients x "
                 "lifetimes {-1,+1,+5} x clock steps {0,2} (72 symbols), DFS with shared prefixes; random sequences up to length 200 over 3 addresses x "
